@@ -197,6 +197,15 @@ def setVersionC : List CEntry → Id → Id → List CEntry
   | [], f, v => [{ flavor := f, version := v, modified := false }]
   | e :: r, f, v => if e.flavor = f then { flavor := f, version := v, modified := true } :: r else e :: setVersionC r f v
 
+/-- `removeFlavor` / `removeVersion`: drop the block of flavor `f` -/
+def dropFlavorV : List VEntry → Id → List VEntry
+  | [], _ => []
+  | e :: r, f => if e.flavor = f then dropFlavorV r f else e :: dropFlavorV r f
+
+def dropFlavorC : List CEntry → Id → List CEntry
+  | [], _ => []
+  | e :: r, f => if e.flavor = f then dropFlavorC r f else e :: dropFlavorC r f
+
 structure Cfg where
   atomic : Bool := true
 
@@ -209,7 +218,7 @@ def dbAssignTag (fs : Fs) (t p v f : Id) : List Step :=
 def dbUnassignTag (fs : Fs) (t p f : Id) : List Step :=
   let es := cread fs p t
   if (chainVersion es f).isNone then [] else
-  writeRec fs (.cfile p t) (.chain (es.filter (·.flavor ≠ f)))
+  writeRec fs (.cfile p t) (.chain (dropFlavorC es f))
 
 /-- `Database.declare(product)` with `product.tags = tags` -/
 def dbDeclare (fs : Fs) (p v f : Id) (tag : Option Id) : List Step :=
@@ -222,13 +231,13 @@ def dbDeclare (fs : Fs) (p v f : Id) (tag : Option Id) : List Step :=
     | none => []
   e0 ++ e1 ++ e2
 
+/-- the tag a directory entry assigns to `(p, v, f)`, if it is a chain file of `p` doing so -/
+def tagOf (p v f : Id) : FPath × FileC → Option Id
+  | (.main (.cfile p' t), .complete (.chain es)) => if p' = p && chainVersion es f = some v then some t else none
+  | _ => none
+
 /-- the tags of `(p, v, f)` in directory-listing order (`Database.findTags`) -/
-def findTags (fs : Fs) (p v f : Id) : List Id :=
-  fs.files.filterMap fun (path, c) =>
-    match path, c with
-    | .main (.cfile p' t), .complete (.chain es) =>
-      if p' = p && chainVersion es f = some v then some t else none
-    | _, _ => none
+def findTags (fs : Fs) (p v f : Id) : List Id := fs.files.filterMap (tagOf p v f)
 
 def unassignAll (p f : Id) : Fs → List Id → List Step
   | _, [] => []
@@ -242,7 +251,7 @@ def dbUndeclare (fs : Fs) (p v f : Id) : List Step :=
   let es := vread fs p v
   let e1 := if hasFlavorV es f then unassignAll p f fs (findTags fs p v f) else []
   let fs1 := applySteps fs e1
-  let e2 := if hasFlavorV es f then writeRec fs1 (.vfile p v) (.ver (es.filter (·.flavor ≠ f))) else []
+  let e2 := if hasFlavorV es f then writeRec fs1 (.vfile p v) (.ver (dropFlavorV es f)) else []
   let fs2 := applySteps fs1 e2
   let e3 : List Step := if (fs2.get (.main (.vfile p v))).isNone then [.rmdir p] else []
   e1 ++ e2 ++ e3
@@ -306,6 +315,15 @@ def steps (fs : Fs) : Cmd → List Step
       | none => []
   | .undeclare p v f =>
     if !hasFlavorV (vread fs p v) f then [] else dbUndeclare fs p v f
+
+/-- the command assigns a tag that is already assigned for this product and flavor — a tag move, or the tag
+re-asserted (known finding D11: carried out as remove-then-write) -/
+def retag (fs : Fs) : Cmd → Bool
+  | .declare p _ f tag _ =>
+    match declareTag fs p f tag with
+    | some t => (chainVersion (cread fs p t) f).isSome
+    | none => false
+  | _ => false
 
 /-- the file-system effects of a command started in state `fs`, in order -/
 def effects (cfg : Cfg) (fs : Fs) (c : Cmd) : List Eff := expandAll cfg.atomic fs (steps fs c)
